@@ -423,12 +423,34 @@ pub fn irect(x1: i32, y1: i32, x2: i32, y2: i32) -> IntRect {
     IntRect::new(IntPoint::new(x1, y1), IntPoint::new(x2, y2))
 }
 
+/// A blank w x h target, built one of the ways a caller can build it (picked by the size, so that a case is
+/// reproducible): DrawTarget::new, from_vec of a zero vector, from_vec of an empty vector (which the library
+/// extends with zeros), from_backing of an owned vector.  All of them are the same surface by C19.
+pub fn blank_target(w: i32, h: i32) -> DrawTarget {
+    let n = (w.max(0) as usize) * (h.max(0) as usize);
+    match (w * 31 + h * 17).rem_euclid(5) {
+        0 => DrawTarget::from_vec(w, h, vec![0; n]),
+        1 => DrawTarget::from_vec(w, h, Vec::new()),
+        2 => DrawTarget::from_backing(w, h, vec![0u32; n]),
+        _ => DrawTarget::new(w, h),
+    }
+}
+
+/// A w x h target with the given contents, built through from_vec, from_backing, or new() plus a copy
 pub fn new_target(w: i32, h: i32, init: &[u32]) -> DrawTarget {
     if init.is_empty() {
-        DrawTarget::new(w, h)
+        blank_target(w, h)
     } else {
         assert_eq!(init.len(), (w * h) as usize);
-        DrawTarget::from_vec(w, h, init.to_vec())
+        match (w * 13 + h * 7 + (init[0] >> 24) as i32).rem_euclid(4) {
+            0 => DrawTarget::from_backing(w, h, init.to_vec()),
+            1 => {
+                let mut dt = DrawTarget::new(w, h);
+                dt.get_data_mut().copy_from_slice(init);
+                dt
+            }
+            _ => DrawTarget::from_vec(w, h, init.to_vec()),
+        }
     }
 }
 
